@@ -981,6 +981,53 @@ pub fn run(ctx: &mut Ctx) {
         let end = if ctx.rng.chance(30) { off } else { ends[ctx.rng.below(ends.len().min(4))] };
         loc_case(ctx, &text, off, end - off);
     }
+    // reals of 15, 16 and 17 significant digits with the dot anywhere (what other tools print): the correctly rounded
+    // double, as Rust's own decimal-to-double conversion gives it — always the same spellings, from a generator of their own
+    {
+        let mut lr = Rng::new(0x16_16_16);
+        let mut spell: Vec<String> = vec!["99999.99999999999".into(), "9.223372036854775".into(), "9862.796582926161".into(), "9007199254740993.0".into(), "0.9007199254740993".into(), "900719925474099.3".into(), "-9007199254.740993".into()];
+        for i in 0..240 {
+            let ndig = 15 + i % 3;
+            let mut d: String = (0..ndig).map(|k| if k == 0 { (b'1' + (lr.below(9) as u8)) as char } else { (b'0' + (lr.below(10) as u8)) as char }).collect();
+            if i % 4 == 0 { d.replace_range(0..1, "9"); }
+            let dot = 1 + lr.below(ndig - 1);
+            d.insert(dot, '.');
+            if i % 7 == 0 { d.insert(0, '-'); }
+            spell.push(d);
+        }
+        for s in spell {
+            let (text, seen) = single_literal(ctx, &s);
+            let got = first_nonws(&seen).cloned();
+            let x: f64 = s.parse().unwrap();
+            let ok = matches!(&got, Some(Seen::Tok { tok: Tok::Literal(Cell::Real(r)), .. }) if r.to_bits() == x.to_bits());
+            ctx.check(ok, || format!("C16 lex {}  ({})", hext(&text), s), || format!("real literal {:?} = bits {:016x}", x, x.to_bits()), || format!("{:?}", got));
+            ctx.tag("lit:real-15-to-17-digits");
+        }
+    }
+    // a literal denotes the value that is written, whatever was compiled before it: every ordered pair of spellings
+    // whose values are "equal" without being the same (the two zeros, a plain value and a constant with attributes that
+    // a meta block left, the same bits read from different places) in one source, and in two sources on one interpreter
+    {
+        const POOL: &[&str] = &["0.0", "-0.0", "1.5", "-1.5", "1.50", "18446744073709551616", "-18446744073709551616", "0x10000000000000000", "|ff|", "|ff 00|", "|FF|", "true", "false",
+            "#( 18446744073709551616 ^hex #)", "#( |ff| 1 \"k\" insert-tag #)", "#( 0.0 1 \"k\" insert-tag #)", "#( -0.0 #)", "#( true 2 \"t\" insert-tag #)", "#( |ff 00| open-bitstr 8 bits close-bitstr #)", "#( 1.5 ^{ 1 \"u\" ^} #)"];
+        let alone: Vec<Option<String>> = POOL.iter().map(|sp| {
+            let mut xs = base.clone();
+            match crate::guarded(|| xs.eval(sp)) { Some(Ok(())) if xs.data_depth() == 1 => xs.get_data(0).map(canon::cell), _ => None }
+        }).collect();
+        for (i, a) in POOL.iter().enumerate() {
+            for (j, b) in POOL.iter().enumerate() {
+                let (wa, wb) = match (&alone[i], &alone[j]) { (Some(x), Some(y)) => (x.clone(), y.clone()), _ => { ctx.tag("lit:after-another:skipped"); continue; } };
+                for split in [false, true] {
+                    let mut xs = base.clone();
+                    let r = if split { crate::guarded(|| { xs.eval(a)?; xs.eval(b) }) } else { crate::guarded(|| xs.eval(&format!("{} {}", a, b))) };
+                    let got: Vec<String> = (0..xs.data_depth()).rev().filter_map(|k| xs.get_data(k).map(canon::cell)).collect();
+                    ctx.check(matches!(r, Some(Ok(()))) && got == vec![wa.clone(), wb.clone()], || format!("C16 `{}` and then `{}` ({})", a, b, if split { "two sources on one interpreter" } else { "one source" }),
+                        || format!("what each denotes alone: {} {}", wa, wb), || format!("{:?} {}", r.map(|x| x.is_ok()), got.join(" ")));
+                    ctx.tag("lit:after-another");
+                }
+            }
+        }
+    }
     // last: the failures of the recorded non-default-format finding
     for (case, exp, obs) in deferred {
         ctx.oracle_fail(case, exp, obs);
